@@ -78,6 +78,7 @@ Definition de_str (w : wire) : dres (option Z) :=
               | [] => DOk None
               | _ => match parse_i64 s with Some z => DOk (Some z) | None => DErr end
               end
+  | WNull => DOk None                                   (* deserialize_any: visit_unit *)
   | _ => DErr
   end.
 
@@ -85,13 +86,14 @@ Definition de_str (w : wire) : dres (option Z) :=
 Definition ser_nz (v : option Z) : wire :=
   match v with Some z => WInt z | None => WInt 0 end.
 
-(* deserialize_i64: non-negative literals arrive through visit_u64, negative ones through visit_i64 *)
+(* deserialize_any: non-negative literals arrive through visit_u64, negative ones through visit_i64, null through visit_unit *)
 Definition de_nz (w : wire) : dres (option Z) :=
   match w with
   | WInt z =>
       if z =? 0 then DOk None
       else if 0 <? z then (if z <=? I64_MAX then DOk (Some z) else DErr)   (* visit_u64: i64::try_from *)
       else DOk (Some z)                                 (* visit_i64 *)
+  | WNull => DOk None                                   (* visit_unit: an explicit null is an absent value *)
   | _ => DErr
   end.
 
@@ -116,7 +118,7 @@ Definition ser_date (v : option date) : wire :=
   | None => WInt 0
   end.
 
-(* deserialize_u64: only non-negative literals reach visit_u64 *)
+(* deserialize_any: only non-negative literals reach visit_u64; null reaches visit_unit *)
 Definition de_date (w : wire) : dres (option date) :=
   match w with
   | WInt z =>
@@ -127,5 +129,6 @@ Definition de_date (w : wire) : dres (option date) :=
         let m := (z / 100) mod 100 in
         let y := z / 10000 in
         DOk (if (y <=? 2 ^ 31 - 1) && valid_date y m d then Some (y, m, d) else None)   (* i32::try_from(year).ok().and_then(from_ymd_opt) *)
+  | WNull => DOk None                                   (* visit_unit *)
   | _ => DErr
   end.
